@@ -59,6 +59,17 @@ def plain_call(harness, spec, values, timeout=20.0):
     return {"error": "plain worker died", "out": None, "failed": [], "skipped": False, "timeout": False}
 
 
+def _kill_plain():
+    global _PLAIN
+    if _PLAIN is not None:
+        try:
+            _PLAIN.kill()
+            _PLAIN.wait(timeout=5)
+        except Exception:
+            pass
+        _PLAIN = None
+
+
 def _applicable(known, prop, job_id, label):
     out = []
     for k in known:
@@ -109,9 +120,15 @@ def run_job(args):
             state["degraded"] = "unmodelled: " + str(e)[:200]
             return None
 
+    def pcall(values):
+        r = plain_call(harness_name, spec, values, ctimeout)
+        if opts.get("fresh_plain"):
+            _kill_plain()   # histories must not leak from one concrete run into the next
+        return r
+
     def confirm(cx, label, model, degraded=False):
         values = cx.values_of(model)
-        r = plain_call(harness_name, spec, values, ctimeout)
+        r = pcall(values)
         if r.get("error") or r.get("skipped"):
             res["inconclusive"].append(f"concrete run of a model failed ({label}): {r.get('error')}")
             return None
@@ -181,7 +198,7 @@ def run_job(args):
             m = e.get_model()
             values = cx.values_of(m)
             sym = norm(out, m)
-            r = plain_call(harness_name, spec, values, ctimeout)
+            r = pcall(values)
             if r.get("error") or r.get("skipped") or r.get("timeout"):
                 res["inconclusive"].append(f"cross-check run failed: {r.get('error') or 'timeout'} values={values}")
             elif json.loads(json.dumps(sym)) != r["out"]:
